@@ -25,7 +25,10 @@
        negativeValues (3), positiveValues (2); the two Store sub-messages are always written, with
        length 0 for an empty store. *)
 From Coq Require Import Bool NArith ZArith List.
-From SK Require Import Base.Prelude Base.F64 Codec.Codec Spec.Bins.
+From SK Require Import Base.Prelude.
+From SK Require Import Base.F64.
+From SK Require Import Codec.Codec.
+From SK Require Import Spec.Bins.
 Import ListNotations.
 Local Open Scope N_scope.
 
